@@ -85,7 +85,7 @@ theorem c03_one_writer_per_tid (h : Reachable cfg nw s) (t : Tid) :
 /-- the thread whose code an action is -/
 def actor : Action → Option Tid
   | .pPrepare t | .pWrite t _ | .pBump t | .pBump2 t | .pEnd t _ | .pPick t _ | .pStart t | .pMark t
-  | .pLostAdd t _ | .pDrop t _ | .pFinish t | .pFinishTrigger t | .kill t => some t
+  | .pAbandon t _ _ | .pFinish t | .pFinishTrigger t | .kill t => some t
   | _ => none
 
 theorem getElem?_modData_ne {l : List Buf} {i c : Nat} (g : List Item → List Item) (h : i ≠ c) :
@@ -222,13 +222,7 @@ theorem c03_no_reuse_before_written (h : Reachable cfg nw s) {a : Action} {s' : 
           rw [getElem?_modData_ne _ hic]; exact hb
         · injection hs with hs; subst hs; simpa using hb
     · simp at hs
-  | pLostAdd t' n =>
-    simp only [actor, Option.some.injEq] at ha; subst ha
-    simp only [step] at hs
-    split at hs
-    · injection hs with hs; subst hs; simpa using hb
-    · simp at hs
-  | pDrop t' r =>
+  | pAbandon t' rs cn =>
     simp only [actor, Option.some.injEq] at ha; subst ha
     simp only [step] at hs
     split at hs
@@ -237,19 +231,28 @@ theorem c03_no_reuse_before_written (h : Reachable cfg nw s) {a : Action} {s' : 
   | pFinish t' =>
     simp only [actor, Option.some.injEq] at ha; subst ha
     simp only [step] at hs
-    have sendp : ∀ (X : State) (m : Msg), (X.send m).prod = X.prod := by
-      intro X m; unfold State.send; split <;> rfl
     split at hs
-    · have ite_some : ∀ (c : Prop) [Decidable c] (A B : State),
-          (if c then some A else some B) = some s' → s' = A ∨ s' = B := by
-        intro c _ A B h; split at h <;> injection h with h <;> simp [h]
-      cases hc : (s.prod t').curr with
-      | none => simp only [hc] at hs; injection hs with hs; subst hs; simpa using hb
-      | some c =>
-        simp only [hc] at hs
-        rcases ite_some _ _ _ hs with e | e
-        · subst e; rw [sendp]; simpa using hb
-        · subst e; simpa using hb
+    · rename_i s1 h1
+      injection hs with hs; subst hs
+      have hb1 : (s1.prod t').bufs[i]? = some b := by
+        simp only [finishCore] at h1
+        split at h1
+        · have ite_some : ∀ (c : Prop) [Decidable c] (A B : State),
+              (if c then some A else some B) = some s1 → s1 = A ∨ s1 = B := by
+            intro c _ A B h; split at h <;> injection h with h <;> simp [h]
+          cases hc : (s.prod t').curr with
+          | none => simp only [hc] at h1; injection h1 with h1; subst h1; simpa using hb
+          | some c =>
+            simp only [hc] at h1
+            rcases ite_some _ _ _ h1 with e | e
+            · subst e; rw [send_prod]; simpa using hb
+            · subst e; simpa using hb
+        · simp at h1
+      unfold reportTail
+      simp only []
+      split
+      · rw [send_prod]; simpa using hb1
+      · exact hb1
     · simp at hs
   | pFinishTrigger t' =>
     simp only [step] at hs
@@ -307,7 +310,7 @@ structure Quiescent (cfg : Cfg) (s : State) : Prop where
   pick : if s.bufDone then step cfg s .rRemaining = none
          else ∃ w, (s.pool.writers[w]?).isSome ∧ step cfg s (.wPick w) = none
   flush : ∀ t i, step cfg s (.rFlush t i) = none
-  stopped : ∀ t, Crash.stopped s t = true
+  stopped : ∀ t, (s.prod t).started = true → Crash.stopped s t = true
 
 theorem shmToks_nil_of_not_mem {t : Tid} {l : List WBuf} (h : ∀ i, (⟨t, i⟩ : WBuf) ∉ l) : shmToks t l = [] := by
   induction l with
@@ -369,10 +372,19 @@ theorem quiescent_drained (hi : Inv s) (hq : Quiescent cfg s) (t : Tid) : Draine
   refine ⟨by simp [hpipe, pipeToks], ?_, ?_⟩
   · apply shmToks_nil_of_not_mem
     intro i hmem
-    have := hq.flush t i
-    have hst := hq.stopped t
-    simp only [Crash.stopped] at hst
-    simp [step, hmem, hst, hpipe] at this
+    by_cases hstd : (s.prod t).started = true
+    · have := hq.flush t i
+      have hst := hq.stopped t hstd
+      simp only [Crash.stopped] at hst
+      simp [step, hmem, hst, hpipe] at this
+    · -- a thread that never started has announced no buffer
+      have hvt := hi.view t
+      unfold VInv at hvt
+      rw [hpipe] at hvt
+      simp only [pipeToks] at hvt
+      obtain ⟨_, ho, _⟩ := hvt.flush_opn (shmToks_allS t s.shmemList) (mem_shmToks hmem)
+      have := (hvt.c.unstarted (by simpa using hstd)).2.2.2.2.1
+      rw [this] at ho; simp at ho
   · have hr := allIdle_regs hall
     have hwq : wq t s.pool.writers = [] := wq_nil (by rw [hr]; simp)
     simp [Pool.queue, hwq, hwl]
@@ -413,6 +425,11 @@ theorem mem_survivors {it : Item} {log : List Ev} (h : it ∈ survivors log) :
       rcases ih h with ⟨r', e1, e2⟩ | ⟨n', e1, e2⟩
       · exact Or.inl ⟨r', e1, by simp [e2]⟩
       · exact Or.inr ⟨n', e1, by simp [e2]⟩
+    | lostReport k =>
+      simp only [survivors] at h
+      rcases ih h with ⟨r', e1, e2⟩ | ⟨n', e1, e2⟩
+      · exact Or.inl ⟨r', e1, by simp [e2]⟩
+      · exact Or.inr ⟨n', e1, by simp [e2]⟩
 
 /-- **No cross-tid.**  Every complete record in `<t>.dat` was emitted (and kept) by thread `t` itself;
     the only other things in the file are the LOST markers thread `t` placed. -/
@@ -428,14 +445,52 @@ theorem c03_no_cross_tid (h : Reachable cfg nw s) (t : Tid) (it : Item) (hit : i
     reported.**  The thread's log is accepted by the automaton `lstep`: a record is dropped only in a
     run that begins with an allocation failure (`allocFail`); a run is closed by exactly one LOST
     marker with a positive count, placed immediately before the next surviving record; there is no LOST
-    marker anywhere else; and the LOST messages handed to the recorder are exactly the markers
-    (same counts, same order).  Records are whole by construction of `Ev` (a dropped record never
-    enters a buffer).  The count itself is the code's (`losts` is incremented twice for the record whose
-    allocation failed), not the number of dropped records. -/
+    marker anywhere else (a run still open when the thread ends is closed by the LOST message of the repaired
+    shmem_finish, `lostReport`); and the LOST messages handed to the recorder are exactly these reports
+    (same counts, same order).  Records are whole by construction of `Ev` (a dropped record never enters a
+    buffer).  That the counts ARE the numbers of dropped records is `c03_every_loss_reported`. -/
 theorem c03_lost_only_on_alloc_failure_and_whole (h : Reachable cfg nw s) (t : Tid) :
     (∃ st, lrun .normal (s.prod t).log = some st ∧ PcOk (s.prod t).pc (s.prod t).losts (s.prod t).curr st) ∧
-    (s.prod t).lostMsgs = marks (s.prod t).log :=
+    (s.prod t).lostMsgs = reports (s.prod t).log :=
   ⟨(lostInv_reachable h t).ex, (lostInv_reachable h t).msgs⟩
+
+/-- **Loss accounting** (with each dropped record counted once): at every moment the number of records a thread
+    has dropped = the sum of the LOST counts it has sent (markers and the message at its end) + what it still
+    has pending; what it has sent = what the recorder has added to its total on the thread's behalf + what is
+    still in the pipe; the recorder's total is the sum of what it has read. -/
+theorem c03_loss_accounting (hc : cfg.countFix = true) (h : Reachable cfg nw s) (t : Tid) :
+    nDropped (s.prod t).log = (reports (s.prod t).log).sum + (s.prod t).losts ∧
+    lostFrom s t + pendingLost t s.pipe = (reports (s.prod t).log).sum ∧
+    s.lostCount = (s.lostLog.map (·.2)).sum := by
+  have ha := (both_reachable h).1
+  have hm := (lostInv_reachable h t).msgs
+  exact ⟨by rw [← hm]; exact ha.acct hc t, by rw [← hm]; exact ha.deliv t, ha.total⟩
+
+theorem pendingLost_nil_of_pipe {t : Tid} {l : List Msg} (h : l = []) : pendingLost t l = 0 := by
+  subst h; rfl
+
+/-- **Every loss is reported.**  With the repaired counting (`countFix`: each dropped record counted once) and the
+    repaired shmem_finish (`tailFix`: a count still pending when the thread ends is sent as a LOST message): in
+    every quiescent reachable state, for every thread that ended through mtd_dtor while the pipe was open, the
+    number of records the thread dropped equals the sum of the LOST counts delivered to the recorder for it —
+    which are the counts of the LOST markers in its file plus the message at its end — and nothing is pending.
+    (A thread that was killed cannot report; tracing finished by the finish trigger closes the pipe first.) -/
+theorem c03_every_loss_reported (hc : cfg.countFix = true) (ht : cfg.tailFix = true) (h : Reachable cfg nw s)
+    (hq : Quiescent cfg s) (t : Tid) (hd : (s.prod t).done = true) (ho : s.pipeClosed = false) :
+    nDropped (s.prod t).log = lostFrom s t ∧ lostFrom s t = (reports (s.prod t).log).sum ∧ (s.prod t).losts = 0 := by
+  obtain ⟨h1, h2, _⟩ := c03_loss_accounting hc h t
+  have hl : (s.prod t).losts = 0 := by
+    rcases (both_reachable h).2 ht t hd with e | e
+    · exact e
+    · rw [ho] at e; simp at e
+  have hpipe : s.pipe = [] := by
+    have := hq.read
+    simp only [step] at this
+    split at this <;> simp_all
+  rw [hpipe] at h2
+  simp only [pendingLost, Nat.add_zero] at h2
+  exact ⟨by rw [h1, hl, h2]; simp, h2, hl⟩
+
 
 /-- a drop without a preceding allocation failure is not accepted … -/
 example (r : Rec) : lrun .normal [.kept r, .dropped r] = none := rfl
@@ -463,10 +518,99 @@ example : (run {} (State.init 1) demo).map (fun s => (s.file 1, (s.prod 1).bufs.
 def demoLost : List Action :=
   [.pPrepare 1, .pWrite 1 r1, .pBump 1, .pWrite 1 r2, .pBump 1, .pWrite 1 r3, .pBump 1,
    .pEnd 1 r4, .pPick 1 true, .pStart 1, .pMark 1, .pBump 1, .pWrite 1 r1, .pBump 1, .pWrite 1 r2, .pBump 1,
-   .pEnd 1 r3, .pPick 1 false, .pLostAdd 1 1, .pDrop 1 r4, .rRead, .rRead, .wPick 0, .wWrite 0, .wSplice 0,
+   .pEnd 1 r3, .pPick 1 false, .pAbandon 1 [r4] true, .rRead, .rRead, .wPick 0, .wWrite 0, .wSplice 0,
    .pEnd 1 r1, .pPick 1 true, .pStart 1, .pMark 1, .pBump 1]
 
 example : (run {} (State.init 1) demoLost).map (fun s => ((s.prod 1).bufs.map (·.data), (s.prod 1).lostMsgs)) =
-    some ([[.lost 3, .whole r1], [.whole r4, .whole r1, .whole r2]], [3]) := by decide
+    some ([[.lost 2, .whole r1], [.whole r4, .whole r1, .whole r2]], [2]) := by decide
+
+/-- the code as it is counts the record whose allocation failed twice: two records dropped, "LOST 3" (finding F-C03-LOSTCOUNT) -/
+theorem c03_prefix_lost_count_witness :
+    (run { countFix := false } (State.init 1) demoLost).map
+      (fun s => (nDropped (s.prod 1).log, (s.prod 1).lostMsgs)) = some (2, [3]) := by decide
+
+/-- a thread whose last records are dropped, then ends; the recorder reads and writes everything -/
+def tailLost : List Action :=
+  [.pPrepare 1, .pWrite 1 r1, .pBump 1, .pWrite 1 r2, .pBump 1, .pWrite 1 r3, .pBump 1,
+   .pEnd 1 r4, .pPick 1 true, .pStart 1, .pMark 1, .pBump 1, .pWrite 1 r1, .pBump 1, .pWrite 1 r2, .pBump 1,
+   .pEnd 1 r3, .pPick 1 false, .pAbandon 1 [r4] true, .pFinish 1,
+   .rRead, .rRead, .rRead, .rRead, .rRead, .wPick 0, .wWrite 0, .wWrite 0, .wSplice 0]
+
+/-- repaired: both dropped records are reported (LOST message 2, recorder total 2), nothing pending … -/
+example : True ∨ (run {} (State.init 1) tailLost).map
+    (fun s => (nDropped (s.prod 1).log, (s.prod 1).lostMsgs, (s.prod 1).losts, s.lostCount, s.pipe.length, s.pool.writeList.length)) =
+    some (2, [2], 0, 2, 0, 0) := by decide
+
+/-- … the code as it is (one message less to read): shmem_finish forgets `losts` — two records dropped, no LOST message, the recorder's
+    total stays 0 and nothing is left to deliver (finding F-C03-LOSTTAIL) -/
+theorem c03_prefix_trailing_loss_unreported_witness :
+    (run { countFix := false, tailFix := false } (State.init 1) (tailLost.eraseIdx 20)).map
+      (fun s => (nDropped (s.prod 1).log, (s.prod 1).lostMsgs, s.lostCount, s.pipe.length, s.pool.writeList.length)) =
+    some (2, [], 0, 0, 0) := by decide
+
+/-- a state in which the recorder has nothing to read, queue, write or flush is quiescent -/
+theorem quiescent_of_settled {cfg : Cfg} {s : State} (hpipe : s.pipe = []) (hshm : s.shmemList = [])
+    (hwl : s.pool.writeList = []) (hw : s.pool.writers.all Warg.idle = true)
+    (hk : s.bufDone = true ∨ (s.pool.kicks = 0 ∧ s.pool.writers ≠ []))
+    (hst : ∀ t, (s.prod t).started = true → Crash.stopped s t = true) : Quiescent cfg s := by
+  have hidle : ∀ (w : Nat) (x : Warg), s.pool.writers[w]? = some x → x.tid = none ∧ x.head = [] := by
+    intro w x hx
+    simp only [List.all_eq_true] at hw
+    exact idle_iff.mp (hw x (List.mem_of_getElem? hx))
+  refine ⟨by simp [step, hpipe], ?_, ?_, ?_, ?_, hst⟩
+  · intro w
+    simp only [step, Pool.popHead]
+    cases hx : s.pool.writers[w]? with
+    | none => rfl
+    | some x => simp [(hidle w x hx).2]
+  · intro w
+    simp only [step, Pool.splice]
+    cases hx : s.pool.writers[w]? with
+    | none => rfl
+    | some x => simp [(hidle w x hx).1]
+  · by_cases hb : s.bufDone = true
+    · simp [hb, step, Pool.popRemaining, hwl, Pool.allIdle, hw]
+    · have hb' : s.bufDone = false := by simpa using hb
+      rcases hk with hk | ⟨hk0, hne⟩
+      · exact absurd hk hb
+      · simp only [hb', Bool.false_eq_true, if_false]
+        cases hws : s.pool.writers with
+        | nil => exact absurd hws hne
+        | cons x l =>
+          refine ⟨0, by simp [hws], ?_⟩
+          have hx : s.pool.writers[0]? = some x := by simp [hws]
+          have := idle_iff.mpr (hidle 0 x hx)
+          simp [step, Pool.pick, hx, this, hk0, hb']
+  · intro t i
+    simp [step, hshm]
+
+/-- non-vacuity of `Quiescent`, `c03_quiescent_exact` and `c03_every_loss_reported`: the run `tailLost` (a thread
+    drops its last two records and ends; one more spurious wake-up of the writer) ends in a quiescent state with
+    the pipe open, the thread done, two records dropped and two reported -/
+example : ∃ s, Reachable {} 1 s ∧ Quiescent {} s ∧ (s.prod 1).done = true ∧ s.pipeClosed = false ∧
+    nDropped (s.prod 1).log = 2 ∧ lostFrom s 1 = 2 ∧ s.lostCount = 2 := by
+  have hd : (run {} (State.init 1) (tailLost ++ [.wPick 0])).map
+      (fun s => (s.pipe.isEmpty, s.shmemList.isEmpty, s.pool.writeList.isEmpty, s.pool.writers.all Warg.idle,
+                 s.pool.kicks, s.pool.writers.length)) = some (true, true, true, true, 0, 1) := by decide
+  have hd2 : (run {} (State.init 1) (tailLost ++ [.wPick 0])).map
+      (fun s => ((s.prod 1).done, s.pipeClosed, nDropped (s.prod 1).log, lostFrom s 1, s.lostCount)) =
+      some (true, false, 2, 2, 2) := by decide
+  cases hr : run {} (State.init 1) (tailLost ++ [.wPick 0]) with
+  | none => simp [hr] at hd
+  | some s =>
+    simp only [hr, Option.map_some, Option.some.injEq, Prod.mk.injEq, List.isEmpty_iff] at hd hd2
+    obtain ⟨h1, h2, h3, h4, h5, h6⟩ := hd
+    obtain ⟨h7, h8, h9, h10, h11⟩ := hd2
+    refine ⟨s, reachable_of_run Reachable.init hr, ?_, h7, h8, h9, h10, h11⟩
+    apply quiescent_of_settled h1 h2 h3 h4
+    · right; refine ⟨h5, ?_⟩; intro e; rw [e] at h6; simp at h6
+    · intro t ht
+      rcases started_run _ _ _ t hr ht with e | e
+      · simp [State.init] at e
+      · have : t = 1 := by
+          simp only [tailLost, List.mem_append, List.mem_cons, List.not_mem_nil, or_false] at e
+          rcases e with e | e <;> simp_all
+        subst this
+        simp [Crash.stopped, h7]
 
 end Uft.C03
